@@ -111,6 +111,6 @@ def chk_pair(case, note):
 
 
 LEGS = [
-    Leg("global_pair", chk_pair, strategy=s_pair, quick=32000, thorough=3000000,
+    Leg("global_pair", chk_pair, strategy=s_pair, quick=32000, thorough=1500000,
         doc="even/odd airborne pair x time order x argument order x {position, airborne_position}"),
 ]
